@@ -152,6 +152,13 @@ Theorem round_granted_never_conflict : forall rq,
 Proof. exact round_granted_compatible. Qed.
 Print Assumptions round_granted_never_conflict.
 
+(* ... and the request that takes effect first is granted: a round on the
+   empty table has at least one grant. *)
+Theorem round_first_granted : forall r tl, rs r < re r ->
+  exists rest, round nil (r :: tl) = (r, true) :: rest.
+Proof. exact round_first. Qed.
+Print Assumptions round_first_granted.
+
 (* non-vacuity: a round with a grant, a denial and a compatible shared grant *)
 Example round_example :
   round nil (mkReq 1 true 3 5 :: mkReq 2 true 2 6 :: mkReq 3 false 7 9 :: nil)
